@@ -662,6 +662,175 @@ async fn requestor_recovers_t(addr: SocketAddr, certs: &Certs, bo: BackoffStrate
 }
 
 
+/// Request/reply with compression on both legs (library Requestor and library Replier) across connection losses of the
+/// requestor: what the handler receives and what request() returns must be the exact bytes, also for the call that is
+/// re-sent after the stream was re-established.
+pub async fn compressed_requestor_recovers(addr: SocketAddr, certs: &Certs, bo: BackoffStrategy, outages: usize, id: u64, algo: &'static str) -> std::result::Result<u64, (String, String)> {
+    use super::c03::compression_pair;
+    use selium::std::codecs::BytesCodec;
+    let inc = |e: String| ("INCONCLUSIVE".to_string(), e);
+    let topic = format!("/c14wire/top{}", id);
+    let (c, d) = compression_pair(algo);
+    let seen: Arc<Mutex<Vec<Vec<u8>>>> = Arc::new(Mutex::new(vec![]));
+    let s2 = seen.clone();
+    let crep = lib_client(&addr.to_string(), certs, None).await.map_err(|e| inc(e.to_string()))?;
+    let mut replier = crep
+        .replier(&topic)
+        .with_request_decoder(BytesCodec)
+        .with_request_decompression(d.clone())
+        .with_reply_encoder(BytesCodec)
+        .with_reply_compression(c.clone())
+        .with_handler(move |req: Vec<u8>| {
+            let s3 = s2.clone();
+            async move {
+                s3.lock().unwrap().push(req.clone());
+                Ok::<Vec<u8>, std::convert::Infallible>(req)
+            }
+        })
+        .open()
+        .await
+        .map_err(|e| inc(format!("open replier: {e}")))?;
+    let listen = tokio::spawn(async move { replier.listen().await });
+    let cr = lib_client(&addr.to_string(), certs, Some(bo)).await.map_err(|e| inc(e.to_string()))?;
+    let mut rq = cr
+        .requestor(&topic)
+        .with_request_encoder(BytesCodec)
+        .with_request_compression(c.clone())
+        .with_reply_decoder(BytesCodec)
+        .with_reply_decompression(d.clone())
+        .with_request_timeout(1500u64)
+        .map_err(|e| inc(e.to_string()))?
+        .open()
+        .await
+        .map_err(|e| inc(format!("open requestor: {e}")))?;
+    let mut rng = crate::common::Rng::new(id ^ 0xC14);
+    let mut payload = |n: u64, rng: &mut crate::common::Rng| -> Vec<u8> {
+        let mut v = format!("call-{}|", n).into_bytes();
+        let words = ["selium ", "topic ", "0000000000", "message "];
+        let target = 200 + rng.below(4000) as usize;
+        while v.len() < target {
+            v.extend_from_slice(rng.pick(&words).as_bytes());
+        }
+        v
+    };
+    let mut n = 0u64;
+    let mut est = false;
+    for _ in 0..40 {
+        n += 1;
+        let p = payload(n, &mut rng);
+        if let Ok(v) = rq.request(p.clone()).await {
+            if v == p {
+                est = true;
+                break;
+            }
+            listen.abort();
+            return Err(("wire-composition/reply-differs".into(), format!("{}: request of {} bytes on a healthy connection returned {} different bytes", algo, p.len(), v.len())));
+        }
+        tokio::time::sleep(Duration::from_millis(50)).await;
+    }
+    if !est {
+        listen.abort();
+        return Err(inc("precondition not reached: no request was answered before the first cut".into()));
+    }
+    let mut ok = 0u64;
+    for o in 0..outages {
+        cut(&cr).await;
+        for k in 0..5 {
+            n += 1;
+            let p = payload(n, &mut rng);
+            match tokio::time::timeout(Duration::from_secs(40), rq.request(p.clone())).await {
+                Err(_) => {
+                    listen.abort();
+                    return Err(("requestor/hangs-after-cut".into(), format!("{}: outage #{}: request() did not return within 40 s", algo, o + 1)));
+                }
+                Ok(Ok(v)) if v == p => ok += 1,
+                Ok(Ok(v)) => {
+                    listen.abort();
+                    let handler_saw = seen.lock().unwrap().last().cloned().unwrap_or_default();
+                    return Err((
+                        "wire-composition/value-differs-after-recovery".into(),
+                        format!(
+                            "{}: outage #{}: call #{} after the cut sent {} bytes, request() returned Ok with {} bytes that differ; the replier's handler received {} bytes starting {}",
+                            algo,
+                            o + 1,
+                            k + 1,
+                            p.len(),
+                            v.len(),
+                            handler_saw.len(),
+                            crate::common::hex_trunc(&handler_saw, 8)
+                        ),
+                    ));
+                }
+                Ok(Err(e)) => {
+                    if k == 0 && !is_too_many(&e) {
+                        continue; // the call that met the broken connection may fail
+                    }
+                    listen.abort();
+                    return Err(("requestor/not-working-after-recovery/compressed".into(), format!("{}: outage #{}: call #{} after the cut failed with {:?} although replier and server were up", algo, o + 1, k + 1, e.to_string())));
+                }
+            }
+        }
+        // nothing the handler ever received may differ from what some call sent (all payloads start with "call-")
+        if let Some(bad) = seen.lock().unwrap().iter().find(|b| !b.starts_with(b"call-")) {
+            listen.abort();
+            return Err(("wire-composition/handler-received-garbage".into(), format!("{}: outage #{}: the replier's handler was handed {} bytes starting {} — not a payload any call sent", algo, o + 1, bad.len(), crate::common::hex_trunc(bad, 8))));
+        }
+    }
+    listen.abort();
+    Ok(ok)
+}
+
+/// C14's L3 stage: the wire composition through the real client library, including the re-send after a reconnect
+pub fn run_c14(rep: &mut StageReport, tier: &str, _seed: u64) {
+    let thorough = tier == "thorough";
+    let rt = runtime(6);
+    let mark = panic_mark();
+    let certs = match gen_certs() {
+        Ok(c) => c,
+        Err(e) => {
+            rep.inconclusive(&format!("certificate generation failed: {e}"));
+            return;
+        }
+    };
+    let algos: &[&'static str] = if thorough { &["gzip", "zlib", "zstd", "lz4", "brotli-generic", "zstd-fastest", "gzip-fastest", "brotli-text"] } else { &["gzip", "zstd", "lz4"] };
+    let results: Vec<(&'static str, std::result::Result<u64, (String, String)>)> = rt.block_on(async {
+        let server = match start_server(&certs) {
+            Ok(s) => s,
+            Err(e) => return vec![("server", Err(("INCONCLUSIVE".to_string(), format!("server start: {e}"))))],
+        };
+        let mut out = vec![];
+        for (i, algo) in algos.iter().enumerate() {
+            let bo = BackoffStrategy::constant().with_max_attempts(4).with_step(Duration::from_millis(20));
+            let r = match tokio::time::timeout(Duration::from_secs(300), compressed_requestor_recovers(server.addr, &certs, bo, if thorough { 5 } else { 2 }, i as u64, algo)).await {
+                Ok(r) => r,
+                Err(_) => Err(("INCONCLUSIVE".to_string(), "watchdog: scenario did not finish in 300 s".to_string())),
+            };
+            out.push((*algo, r));
+        }
+        server.stop();
+        out
+    });
+    for (algo, r) in results {
+        rep.evaluations += 1;
+        match r {
+            Ok(n) => {
+                rep.distinct.insert(crate::common::fnv(algo.as_bytes()));
+                rep.count("l3_calls_with_exact_round_trip", n);
+                rep.sample(json!({"l3": "library Requestor (request compression, reply decompression) ↔ library Replier (request decompression, reply compression) across connection losses of the requestor", "algorithm": algo, "calls_returning_the_exact_bytes": n}));
+            }
+            Err((sig, why)) if sig == "INCONCLUSIVE" => rep.inconclusive(&why),
+            Err((sig, detail)) => {
+                let replay = write_replay("C14", &format!("l3-{}", sig.replace('/', "_")), 0, json!({"property": "C14", "detail": detail}));
+                rep.violation(Violation { signature: format!("C14/l3/{}", sig), detail, replay });
+            }
+        }
+    }
+    for p in repo_panics_since(mark) {
+        rep.violation(Violation { signature: format!("C14/l3/panic/{}", crate::routersim::exec::normalise_location(&p.location)), detail: format!("panic at {}: {}", p.location, p.message), replay: String::new() });
+    }
+    rep.rule = "L3: one evaluation = one compression algorithm: library Requestor and library Replier with compression on both legs through the in-process server; the requestor's connection is cut repeatedly; every call that returns Ok must return the exact bytes sent, and the replier's handler must only ever see bytes some call sent".into();
+}
+
 /// A requestor and its clones share the request-id counter and the pending-call map; after a connection
 /// loss every clone re-establishes its *own* stream. Concurrent calls on the recovered clones must still
 /// each get their own reply. Returns (calls that returned their own reply, wrong replies, failed calls).
@@ -1505,6 +1674,17 @@ pub fn run(rep: &mut StageReport, tier: &str, _seed: u64) {
                 Err(_) => Err(V("INCONCLUSIVE".into(), "watchdog: shared-client scenario did not finish in 400 s".into())),
             };
             out.push(("recovery/subscribers-sharing-a-client".to_string(), cfg, r));
+        }
+        // requestor with compression on both legs across outages (the re-sent call must carry the same bytes)
+        for (k, algo) in ["gzip", "zstd"].into_iter().enumerate() {
+            let bo = BackoffStrategy::constant().with_max_attempts(4).with_step(Duration::from_millis(20));
+            let cfg = json!({"role": "requestor", "request_compression": algo, "reply_decompression": algo, "outages": 2});
+            let r = match tokio::time::timeout(Duration::from_secs(300), compressed_requestor_recovers(server.addr, &certs.0, bo, 2, 50 + k as u64, algo)).await {
+                Ok(Ok(n)) => Ok(n),
+                Ok(Err((sig, d))) => Err(V(sig, d)),
+                Err(_) => Err(V("INCONCLUSIVE".into(), "watchdog: scenario did not finish in 300 s".into())),
+            };
+            out.push(("recovery/requestor-compressed".to_string(), cfg, r));
         }
         // publisher whose caller wraps each send() in a timeout shorter than the backoff delay
         {
